@@ -161,7 +161,24 @@ func r192(c *an.Ctx) {
 			}
 			checked := func(x ssa.Instruction) bool {
 				cl, isCall := x.(*ssa.Call)
-				if !isCall || !strings.HasSuffix(an.CalleeName(cl), "electricpb.Model).normalMode") {
+				if !isCall {
+					return false
+				}
+				// a helper the rules have not seen that reports normalMode()'s verdict (e.g. hasNormalMode)
+				if h := an.TransparentCallee(cl); h != nil && h.Signature.Results().Len() == 1 {
+					reports := false
+					for _, inner := range an.CallsIn(h, func(s string) bool { return strings.HasSuffix(s, "electricpb.Model).normalMode") }) {
+						for _, r := range an.Returns(h) {
+							for _, v := range an.ValuesAt(r.Results[0]) {
+								if an.IsExtractOf(v, inner.(*ssa.Call), 1) {
+									reports = true
+								}
+							}
+						}
+					}
+					return reports && len(flowsToIf(cl)) > 0
+				}
+				if !strings.HasSuffix(an.CalleeName(cl), "electricpb.Model).normalMode") {
 					return false
 				}
 				// its result is tested
@@ -390,8 +407,8 @@ func r194(c *an.Ctx) {
 	if fn := mustFunc(c, rule, elecPkg, "Model", "changeActiveMode"); fn != nil {
 		n := 0
 		for _, call := range an.CallsTo(fn, an.ModulePath+"/pkg/resource.InterceptAfter") {
-			f := an.ClosureFn(call.Common().Args[0])
-			if f == nil {
+			f, _, newP := an.CallbackBody(call.Common().Args[0])
+			if f == nil || newP == nil {
 				continue
 			}
 			c.SawFunc(an.FuncName(f))
@@ -408,7 +425,7 @@ func r194(c *an.Ctx) {
 				// written to `new`
 				toNew := false
 				for _, s := range an.Sources(base) {
-					if s == ssa.Value(f.Params[1]) {
+					if s == ssa.Value(newP) {
 						toNew = true
 					}
 				}
